@@ -12,7 +12,13 @@ C20 driver.  Requests (see harness/props/c20/src/main.rs):
   lex <integer|boolean|double|decimal|string|rustFinite> <hex>   membership in the XSD lexical space
   h3                                what non-finite values print as / special spellings parse to; int widths
   wl                                the five datatype whitelists
-  h12 <seed> <n>                    H1/H2 on n random doubles (done in-process by the harness; demand: 0 failures)
+  h12 <seed> <n>                    n random doubles in-process by the harness: demand = 0 invalid lexical forms, 0 failed
+                                    round trips; H1 (a proof hypothesis, not a demand) is a plain field
+  foreign <type> <hex lex|-> <hex dt|->   `T::try_from_term` on a harness-local `Term` impl answering exactly these
+                                    `lexical_form()` / `datatype()` (any `kind()`): the unwrap is an explicit outcome
+  bigf <type> <dtname> <hex pre> <z1> <hex mid> <z2> <hex post>
+                                    `parse` on the literal pre ++ "0"*z1 ++ mid ++ "0"*z2 ++ post ^^ xsd:dtname
+                                    (zero-padded forms of any length without megabyte request lines)
 
 Plain fields mirror the implementation (model = code); `o.` fields are what the property demands.
 -/
@@ -46,7 +52,7 @@ def intReply (ty : IntTy) (term : Int → Term) (tryFrom : Term → Except IntEr
         | .ok v => toString v
         | .error e => "err:" ++ e.name
       reply [kv "lex" (hexS lex), kv "dt" (hexS dt), kv "back" back, kv "o.back" (toString n),
-             kvB "valid" (Xsd.matchesS Xsd.integer lex)]
+             kvB "valid" (Xsd.matchesS Xsd.integer lex), kv "copy.drift" "0"]
     | _ => "bad-model"
 
 def showIntRes : Except IntErr Int → List String
@@ -63,7 +69,7 @@ def intDen (t : Term) : Option Int :=
   | .lit lex dt =>
     match xsdNameOf dt with
     | some name =>
-      if ((Xsd.boundsOf name).isSome || name == "decimal".toList) && Xsd.matchesS Xsd.integer lex
+      if (Xsd.compatBoundsOf name).isSome && Xsd.matchesS Xsd.integer lex
       then some (Xsd.intVal lex) else none
     | none => none
   | _ => none
@@ -101,6 +107,58 @@ def oracleFields (den : Option String) : List String :=
   | some v => [kv "o.val" v]
   | none => [kv "o.ok" "0"]
 
+/-- reply of `parse <ty> t` (also used by `bigf`) -/
+def parseReply (ty : String) (t : Term) : String :=
+  match ty with
+  | "i32" => reply (showIntRes (i32TryFromTerm t) ++ oracleFields ((intDen t).map toString))
+  | "isize" => reply (showIntRes (isizeTryFromTerm t) ++ oracleFields ((intDen t).map toString))
+  | "usize" => reply (showIntRes (usizeTryFromTerm t) ++ oracleFields ((intDen t).map toString))
+  | "bool" =>
+    let r := match boolTryFromTerm t with
+      | .ok v => [kv "ok" "1", kv "val" (toString v)]
+      | .error _ => [kv "ok" "0", kv "err" "invalid"]
+    reply (r ++ oracleFields ((boolDen t).map toString))
+  | "f64" =>
+    let r := match RustF64.tryFromTerm t with
+      | .ok v => [kv "ok" "1", kv "val" (showF64 v)]
+      | .error .empty => [kv "ok" "0", kv "err" "empty"]
+      | .error .invalid => [kv "ok" "0", kv "err" "invalid"]
+    let den := (f64Den t).map (fun d => match d with | some b => hex16 b | none => "nan")
+    reply (r ++ oracleFields den)
+  | _ => "bad-op"
+
+def showOutcome {ε α : Type} (val : α → String) (err : ε → String) : Outcome ε α → List String
+  | .ok v => [kv "ok" "1", kv "val" (val v)]
+  | .err e => [kv "ok" "0", kv "err" (err e)]
+  | .panic => [kv "ok" "panic"]
+
+/-- `foreign`: an arbitrary implementation of the `Term` trait, seen through `View`.  What the property
+demands is stated only where the view is that of a literal (lexical form AND datatype): then it is the
+demand on that literal; with no lexical form: an error.  A lexical form without a datatype breaks the
+contract of the trait (`datatype()` is `Some` for every literal): the model says `panic`, no demand. -/
+def foreignReply (ty : String) (v : View) : String :=
+  let den (f : Term → Option String) : List String :=
+    match v.lex, v.dt with
+    | some l, some d => oracleFields (f (.lit l d))
+    | none, _ => [kv "o.ok" "0"]
+    | some _, none => []
+  match ty with
+  | "i32" => reply (showOutcome toString IntErr.name (tryFromViewWith Gen.Native.tryI32 (parseInt i32) v)
+      ++ den (fun t => (intDen t).map toString))
+  | "isize" => reply (showOutcome toString IntErr.name (tryFromViewWith Gen.Native.tryIsize (parseInt isize) v)
+      ++ den (fun t => (intDen t).map toString))
+  | "usize" => reply (showOutcome toString IntErr.name (tryFromViewWith Gen.Native.tryUsize (parseInt usize) v)
+      ++ den (fun t => (intDen t).map toString))
+  | "bool" => reply (showOutcome toString (fun _ => "invalid") (tryFromViewWith Gen.Native.tryBool parseBool v)
+      ++ den (fun t => (boolDen t).map toString))
+  | "f64" => reply (showOutcome showF64 (fun e => match e with | RustF64.Err.empty => "empty" | .invalid => "invalid")
+        (tryFromViewWith Gen.Native.tryF64 RustF64.parse v)
+      ++ den (fun t => (f64Den t).map (fun d => match d with | some b => hex16 b | none => "nan")))
+  | _ => "bad-op"
+
+def optHex (h : String) : Option (Option Str) :=
+  if h == "-" then some none else (charsOfHex h).map some
+
 def whitelistStr (cfg : Gen.Native.TryFrom) : String :=
   let names := (cfg.whitelist.map String.ofList).toArray.qsort (· < ·)
   ",".intercalate names.toList
@@ -119,7 +177,7 @@ def handle (line : String) : String :=
         | .ok v => toString v
         | .error _ => "err:invalid"
       reply [kv "lex" (hexS lex), kv "dt" (hexS dt), kv "back" back, kv "o.back" (toString b),
-             kvB "valid" (Xsd.matchesS Xsd.boolean lex)]
+             kvB "valid" (Xsd.matchesS Xsd.boolean lex), kv "copy.drift" "0"]
     | _ => "bad-model"
   | ["str", h] =>
     match charsOfHex h with
@@ -128,7 +186,7 @@ def handle (line : String) : String :=
       match strTerm s with
       | .lit lex dt =>
         let valid := Xsd.matchesS Xsd.string lex
-        reply [kv "lex" (hexS lex), kv "dt" (hexS dt), kvB "valid" valid,
+        reply [kv "lex" (hexS lex), kv "dt" (hexS dt), kvB "valid" valid, kv "copy.drift" "0",
                kv "o.lex" (hexS (if valid then lex else invalidMarker "string")), kv "o.back" (hexS s)]
       | _ => "bad-model"
   | ["f64", hb, hl] =>
@@ -141,8 +199,11 @@ def handle (line : String) : String :=
         -- the lexical form the implementation produced must be valid AND denote x (exact arithmetic)
         let den := Dec.doubleVal l
         let good := valid && den == some (some x)
+        -- `h1` is the proof hypothesis H1 (an ASSUMPTION about `core`, not a demand of the property): the
+        -- model states it as a constant, the implementation reports what it saw; a difference is a broken tie
+        -- ("H1 no longer holds: f64_finite_valid is not applicable"), not a violation with an input
         reply [kv "cls" "finite", kv "dt" (hexS dt), kvB "valid" valid,
-               kvB "h1" (Xsd.matchesS Xsd.rustFiniteDisplay l),
+               kv "h1" "1", kvB "h1.seen" (Xsd.matchesS Xsd.rustFiniteDisplay l), kv "copy.drift" "0",
                kv "o.lex" (hexS (if good then l else invalidMarker "double")),
                kv "o.back" (hex16 x)]
       else
@@ -154,31 +215,25 @@ def handle (line : String) : String :=
         let canon : Str := match want with
           | .nan => "NaN".toList | .posInf => "INF".toList | .negInf => "-INF".toList
         let good := valid && Xsd.specialVal l == some want
-        reply [kv "cls" cls, kv "dt" (hexS dt), kv "lex" (hexS mlex), kvB "valid" valid,
+        reply [kv "cls" cls, kv "dt" (hexS dt), kv "lex" (hexS mlex), kvB "valid" valid, kv "copy.drift" "0",
                kv "o.lex" (hexS (if good then l else canon)),
                kv "o.back" (showF64 x)]
     | _, _ => "bad-hex"
   | "parse" :: ty :: rest =>
     match Term.parseAll rest with
-    | some (t, []) =>
-      match ty with
-      | "i32" => reply (showIntRes (i32TryFromTerm t) ++ oracleFields ((intDen t).map toString))
-      | "isize" => reply (showIntRes (isizeTryFromTerm t) ++ oracleFields ((intDen t).map toString))
-      | "usize" => reply (showIntRes (usizeTryFromTerm t) ++ oracleFields ((intDen t).map toString))
-      | "bool" =>
-        let r := match boolTryFromTerm t with
-          | .ok v => [kv "ok" "1", kv "val" (toString v)]
-          | .error _ => [kv "ok" "0", kv "err" "invalid"]
-        reply (r ++ oracleFields ((boolDen t).map toString))
-      | "f64" =>
-        let r := match RustF64.tryFromTerm t with
-          | .ok v => [kv "ok" "1", kv "val" (showF64 v)]
-          | .error .empty => [kv "ok" "0", kv "err" "empty"]
-          | .error .invalid => [kv "ok" "0", kv "err" "invalid"]
-        let den := (f64Den t).map (fun d => match d with | some b => hex16 b | none => "nan")
-        reply (r ++ oracleFields den)
-      | _ => "bad-op"
+    | some (t, []) => parseReply ty t
     | _ => "bad-op"
+  | ["foreign", ty, hl, hd] =>
+    match optHex hl, optHex hd with
+    | some l, some d => foreignReply ty ⟨l, d⟩
+    | _, _ => "bad-hex"
+  | ["bigf", ty, dtn, hpre, z1, hmid, z2, hpost] =>
+    match charsOfHex hpre, z1.toNat?, charsOfHex hmid, z2.toNat?, charsOfHex hpost with
+    | some pre, some n1, some mid, some n2, some post =>
+      if n1 > 2000000 ∨ n2 > 2000000 then "bad-op" else
+      let lex := pre ++ List.replicate n1 '0' ++ mid ++ List.replicate n2 '0' ++ post
+      parseReply ty (.lit lex (xsdIri dtn.toList))
+    | _, _, _, _, _ => "bad-hex"
   | ["lex", name, h] =>
     match charsOfHex h with
     | none => "bad-hex"
@@ -210,7 +265,7 @@ def handle (line : String) : String :=
            kv "i32.min" (toString i32.min), kv "i32.max" (toString i32.max),
            kv "isize.min" (toString isize.min), kv "isize.max" (toString isize.max),
            kv "usize.min" (toString usize.min), kv "usize.max" (toString usize.max)]
-  | ["h12", _, _] => reply [kv "o.h1fail" "0", kv "o.h2fail" "0"]
+  | ["h12", _, _] => reply [kv "h1fail" "0", kv "o.invalid" "0", kv "o.h2fail" "0"]
   | ["wl"] =>
     reply [kv "f64" (whitelistStr Gen.Native.tryF64), kv "i32" (whitelistStr Gen.Native.tryI32),
            kv "isize" (whitelistStr Gen.Native.tryIsize), kv "usize" (whitelistStr Gen.Native.tryUsize),
